@@ -536,7 +536,19 @@ pub fn check(case: &Case, obs: &mut Obs) -> CheckResult {
         serde_json::to_value(&decoded.presentation),
         "returned presentation to JSON"
       );
-      let want = fixture!(serde_json::to_value(&presentation), "signed presentation to JSON");
+      let mut want = fixture!(serde_json::to_value(&presentation), "signed presentation to JSON");
+      // An id that was signed only inside `vp` (no jti to carry it) is part of what was signed: if such a token is
+      // accepted at all (the statement leaves that open), the id must come back, not silently disappear.
+      if !case.jti {
+        let signed_vp_id = match case.vp_id {
+          Dup::Absent => None,
+          Dup::Equal => Some(PRESENTATION_ID),
+          Dup::Different => Some(OTHER_ID),
+        };
+        if let (Some(id), Some(obj)) = (signed_vp_id, want.as_object_mut()) {
+          obj.insert("id".into(), json!(id));
+        }
+      }
       vensure!(
         obs,
         got == want,
